@@ -80,7 +80,13 @@ def const_of(fr, v):
 
 
 def fn_int(fr, tag: str, args, width: int) -> AInt:
-    """uninterpreted function result: `width` value bits named by (tag, frozen args)"""
+    """uninterpreted function result: `width` value bits named by (tag, frozen args).  Arithmetic the domain cannot express
+    (tag 'arith:*') is only kept as an uninterpreted function where a rule asked for it (I.uninterpreted_arith: C17 reasons about
+    'the incremented counter' structurally); everywhere else it is an OPAQUE integer, so that no rule can mistake the
+    abstraction for a different value."""
+    if tag.startswith("arith:") and not getattr(fr.I, "uninterpreted_arith", False):
+        why = f"{tag} of symbolic integers at {fr.fi.module.relpath}"
+        return AInt([OB(why) for _ in range(width)])
     key = (tag, _freeze([_norm(fr, a) for a in args]))
     return AInt([fr.I.atom_form(("fn", key, j)) for j in range(width)])
 
@@ -859,6 +865,48 @@ def bitvector_lookup(fr, base, key, node):
     return ABits(out, base[0].kind if isinstance(base[0], ABits) else "ba")
 
 
+def linear_lookup_int(fr, base, key):
+    """T[key] for a constant table of 2^k non-negative INTEGERS that is GF(2)-linear in its index (T[i ^ j] == T[i] ^ T[j],
+    T[0] == 0 — verified exhaustively through the basis decomposition), e.g. multiplication by a constant in GF(2^8):
+    exact for a key whose bits are arbitrary affine forms, however many atoms they involve"""
+    if not isinstance(base, (list, tuple)) or not isinstance(key, AInt) or key.ext is not None:
+        return None
+    n = len(base)
+    k = n.bit_length() - 1
+    if n != 1 << k or k == 0 or not all(isinstance(e, int) and not isinstance(e, bool) and e >= 0 for e in base) or base[0] != 0:
+        return None
+    cache = fr.I.repo._cache
+    ck = ("linear-int-table", id(base), n)
+    ok = cache.get(ck)
+    if ok is None:
+        ok = True
+        for idx in range(n):
+            acc = 0
+            for i in range(k):
+                if idx >> i & 1:
+                    acc ^= base[1 << i]
+            if acc != base[idx]:
+                ok = False
+                break
+        # keyed by identity of the table object: keep it alive so that the id is not re-used
+        cache[ck] = ok
+        cache[("linear-int-table-ref", id(base))] = base
+    if not ok:
+        return None
+    kb = [fr.I.simp(key.bit(i)) for i in range(max(k, len(key.bits)))]
+    if any(not (isinstance(b, F) and b.is_const and b.c == 0) for b in kb[k:]):
+        return None
+    w = max(max(e.bit_length() for e in base), 1)
+    out = []
+    for j in range(w):
+        acc = ZERO
+        for i in range(k):
+            if base[1 << i] >> j & 1:
+                acc = acc ^ kb[i]
+        out.append(acc)
+    return AInt(out)
+
+
 def linear_lookup(fr, base, key):
     """T[key] for a constant table with 2^k entries of equal-width bit strings that is GF(2)-linear
     (T[i^j] = T[i]^T[j], verified exhaustively on the basis decomposition): exact for affine key bits"""
@@ -918,6 +966,9 @@ def subscript(fr, base, sl, node):
                 if lin is not None:
                     return lin
                 return bitvector_lookup(fr, base, key, node)
+            lin = linear_lookup_int(fr, base, key)
+            if lin is not None:
+                return lin
             v = try_lift(lambda k: base[k], key)
             if v is TOO_WIDE:
                 raise Abort(f"table lookup with a data-dependent key that is too wide at {fr.fi.module.relpath}:{node.lineno}")
@@ -1298,7 +1349,14 @@ def b_divmod(fr, args, kw, n):
 def b_sum(fr, args, kw, n):
     items = fr.iterate(args[0], n)
     if any(is_abs(x) for x in items):
-        return fn_int(fr, "sum", items, 64)
+        # integers: added one by one with the same model as `+` (exact where no carry can occur — disjoint bit supports —
+        # otherwise the arithmetic abstraction of `+`); other abstract summands stay one uninterpreted value
+        if all(isinstance(x, (AInt, AFin)) or (isinstance(x, int) and not isinstance(x, bool) and x >= 0) for x in items):
+            acc = args[1] if len(args) > 1 else 0
+            for x in items:
+                acc = binop(fr, ast.Add(), acc, x, n)
+            return acc
+        return fn_int(fr, "arith:sum", items, 64)
     return sum(items, *args[1:])
 
 
@@ -1554,7 +1612,18 @@ def method(fr, base, name, args, kw, n):
                     fr.I.overflow_sites.append((fr.fi.qualname, n.lineno, len(base.bits), length * 8)) if hasattr(fr.I, "overflow_sites") else None
             return r
         if name == "bit_length":
-            return I.opaque("bit_length")
+            # depends on the value: the position of the leading one is decided bit by bit from the top (one path per length)
+            if base.ext is not None or base.signed or len(base.bits) > 64:
+                return I.opaque("bit_length of an unbounded / signed abstract int")
+            for j in range(len(base.bits) - 1, -1, -1):
+                b = I.simp(base.bits[j])
+                if isinstance(b, F) and b.is_const:
+                    if b.c == 1:
+                        return j + 1
+                    continue
+                if I.decide_eq([b], 1, f"bit_length:{n.lineno}:bit{j}"):
+                    return j + 1
+            return 0
         raise Abort(f"int method {name}")
     if base is int and name == "to_bytes" and args:
         # unbound spelling int.to_bytes(x, ...)
@@ -1691,6 +1760,24 @@ def subscript_dict_abs(fr, d, key, n):
 
 def bits_method(fr, b: ABits, name, args, kw, n):
     I = fr.I
+    if b.kind == "bitstr":
+        # a text of binary digits (see b_bin): the padding / counting methods of str that keep it one
+        if any(x is BINSTR_PREFIX for x in b.items):
+            raise Abort(f"str method {name} on a digit string that still has its 0b prefix")
+        if name in ("zfill", "rjust", "ljust") and args:
+            width = fr.cint(args[0])
+            fill = args[1] if len(args) > 1 else "0"
+            if name != "zfill" and fill not in ("0", "1"):
+                raise Abort("padding a digit string with a non-digit")
+            padbit = cbit(1) if (name != "zfill" and fill == "1") else cbit(0)
+            pad = [padbit] * max(0, width - len(b.items))
+            return ABits((list(b.items) + pad) if name == "ljust" else (pad + list(b.items)), "bitstr")
+        if name == "count" and args and args[0] in ("0", "1"):
+            forms = I.simp_bits(b.items)
+            if all(isinstance(x, F) and x.is_const for x in forms):
+                return sum(1 for x in forms if x.c == int(args[0]))
+            return APop(forms if args[0] == "1" else [x ^ 1 for x in forms])
+        raise Abort(f"str method {name} on a symbolic digit string at {fr.fi.module.relpath}:{n.lineno}")
     if b.kind == "bytes" and name in ("decode", "hex", "startswith", "endswith", "strip", "lstrip", "rstrip", "replace", "split", "find", "index", "count", "upper", "lower", "isdigit") \
             and not any(is_abs(a) for a in args):
         bits = I.simp_bits(b.items)
@@ -1715,6 +1802,21 @@ def bits_method(fr, b: ABits, name, args, kw, n):
         return ABits(list(b.items), b.kind, b.endian)
     if name == "extend":
         b.items.extend(fr.to_bitlist(args[0]))
+        return None
+    if name == "insert" and len(args) == 2:
+        pos = fr.cint(args[0])
+        if b.kind == "bytes":
+            x = fr.to_int(args[1])
+            hi = I.simp_bits(x.bits[8:]) if x.ext is None else None
+            if hi is None or not all(isinstance(t, F) and t.is_const and t.c == 0 for t in hi):
+                raise PartialRaise("ValueError", f"bytearray.insert of a value wider than 8 bits at {fr.fi.module.relpath}:{n.lineno}")
+            nbytes = len(b.items) // 8
+            pos = max(0, min(nbytes, pos if pos >= 0 else nbytes + pos))
+            b.items[pos * 8:pos * 8] = x.msb_first(8)
+            return None
+        nb = len(b.items)
+        pos = max(0, min(nb, pos if pos >= 0 else nb + pos))
+        b.items.insert(pos, fr.to_bit(args[1]))
         return None
     if name == "append":
         if b.kind == "bytes":
@@ -1861,6 +1963,18 @@ def external(fr, name, args, kw, n):
         if kw.get("signed"):
             r.signed = True
         return r
+    if name == "itertools.count":
+        start = fr.cint(args[0]) if args else 0
+        step = fr.cint(args[1]) if len(args) > 1 else 1
+        # an endless counter: unrolled far enough for any loop that leaves through return / break / an exception
+        return list(range(start, start + 4096 * step, step))
+    if name == "operator.index":
+        x = args[0]
+        if isinstance(x, (AInt, ANeg)) or (isinstance(x, int)):
+            return int(x) if isinstance(x, bool) else x
+        if isinstance(x, AOpq):
+            return x
+        raise PathRaise("TypeError", "object cannot be interpreted as an integer")
     if name == "bitarray.util.zeros":
         nbits = fr.cint(args[0] if args else kw.get("length"))
         return ABits([cbit(0)] * nbits, "ba", kw.get("endian", args[1] if len(args) > 1 else "big"))
@@ -1886,6 +2000,17 @@ def external(fr, name, args, kw, n):
         if isinstance(v, (list, tuple)) and all(isinstance(x, int) for x in v):
             return ABits([cbit(x) if x in (0, 1) else OB("non-bit") for x in v], "np")
         return NPArr(v)
+    if name in ("numpy.logical_not", "numpy.invert", "numpy.bitwise_not") and args:
+        # on 0/1 vectors: element-wise complement (numpy.invert of an int vector is not that — only logical_not is exact for 0/1 ints;
+        # the others are modelled only for boolean-valued operands and otherwise left opaque)
+        if name != "numpy.logical_not":
+            return I.opaque(f"{name} of an integer vector")
+        return ABits([b ^ 1 for b in fr.to_bitlist(args[0])], "np")
+    if name in ("numpy.logical_xor", "numpy.bitwise_xor") and len(args) == 2:
+        a, b = fr.to_bitlist(args[0]), fr.to_bitlist(args[1])
+        if len(a) != len(b):
+            raise PathRaise("ValueError", "operands could not be broadcast together")
+        return ABits([x ^ y for x, y in zip(a, b)], "np")
     if name == "numpy.append":
         a = fr.to_bitlist(args[0])
         b = fr.to_bitlist(args[1])
